@@ -11,9 +11,9 @@ from vlib import renv, ref_response
 PROPERTY = "C04"
 RULE = ("finite matrix worker class {sync,gthread,gevent,eventlet} x phase of a client connection at signal time {accepted-idle, head "
         "partly sent, application running (gate file), response partly written, keep-alive idle} x application {finishes 0.3 s after the "
-        "signal, overruns graceful_timeout, never finishes} x signal {TERM, INT, QUIT} x bind {tcp, unix} (plus the history 'one HUP before the signal' for every class x signal x bind), each with a real master + "
+        "signal, overruns graceful_timeout, never finishes} x signal {TERM, INT, QUIT} x bind {tcp, unix} (plus the history 'one HUP before the signal' for every class x signal x bind, and two-listener servers with the request on either listener), each with a real master + "
         "worker started from the working tree, graceful_timeout=4, plus a seeded sub-second jitter before the signal (thorough: the "
-        "whole matrix; quick: a seeded slice of 56 cells). Oracle: TERM and a request a worker had started reading and an application "
+        "whole matrix; quick: a seeded slice of 72 cells). Oracle: TERM and a request a worker had started reading and an application "
         "finishing in time => complete response (independent response reader); master exit status 0 within graceful_timeout+4 s (INT/"
         "QUIT: within 4 s); afterwards no process of the master's session alive, listener not connectable, pid file and unix socket file "
         "gone. non-trivial = a request was in flight at the signal; distinct by cell")
@@ -38,6 +38,9 @@ def matrix():
         if phase in ("idle", "keepalive-idle") and app != "finish":
             continue
         yield {"kind": kind, "phase": phase, "app": app, "sig": sig, "bind": bind}
+    # two listeners: the request in flight is on one of them, the other is idle
+    for kind, phase, which in itertools.product(KINDS, ["app-running", "response-partial", "head-partial"], [0, 1]):
+        yield {"kind": kind, "phase": phase, "app": "finish", "sig": "TERM", "bind": "unix", "two_binds": which}
     # histories: one reload (HUP) before the shutdown signal - the end state must be the same
     for kind, sig, bind in itertools.product(KINDS, SIGS, BINDS):
         yield {"kind": kind, "phase": "idle", "app": "finish", "sig": sig, "bind": bind, "prelude": "hup"}
@@ -53,20 +56,20 @@ def extra_cases(tier, seed, shard, nshards):
         picked = []
         seen = set()
         for c in cells:
-            k = (c["kind"], c["phase"], "TERM" if c["sig"] == "TERM" else "quick", c.get("prelude"))
+            k = (c["kind"], c["phase"], "TERM" if c["sig"] == "TERM" else "quick", c.get("prelude"), c.get("two_binds") is not None)
             if k not in seen or (c["app"] == "finish" and c["sig"] == "TERM" and (c["kind"], c["phase"], "f") not in seen):
                 seen.add(k)
                 if c["app"] == "finish" and c["sig"] == "TERM":
                     seen.add((c["kind"], c["phase"], "f"))
                 picked.append(c)
-        cells = picked[:56]
+        cells = picked[:72]
     for i, c in enumerate(cells):
         if i % nshards == shard:
             j = int(hashlib.sha1(("%d-%d" % (seed, i)).encode()).hexdigest()[:4], 16) / 65535.0
             yield dict(c, jitter=round(0.05 + 0.4 * j, 3))
 
 
-EXHAUSTIVE_NOTE = "thorough tier enumerates all %d cells of the matrix; quick a seeded slice of 56" % len(list(matrix()))
+EXHAUSTIVE_NOTE = "thorough tier enumerates all %d cells of the matrix; quick a seeded slice of 72" % len(list(matrix()))
 
 
 def run_case(case):
@@ -75,6 +78,17 @@ def run_case(case):
     classes = ["kind:" + kind, "phase:" + phase, "app:" + app, "sig:" + sig, "bind:" + bind]
     srv = renv.Server(kind=kind, workers=1, bind=bind, graceful=G, timeout=30, threads=2 if kind == "gthread" else None,
                       keepalive=8)
+    if case.get("two_binds") is not None:
+        srv.cleanup()
+        import os as _os
+        import tempfile as _tf
+        second = _os.path.join(_tf.gettempdir(), "verif-second-%d-%d.sock" % (_os.getpid(), int(time.time() * 1000) % 100000))
+        srv = renv.Server(kind=kind, workers=1, bind=bind, graceful=G, timeout=30, threads=2 if kind == "gthread" else None,
+                          keepalive=8, extra_binds=["unix:" + second])
+        srv.second = second
+        if case["two_binds"] == 1:
+            srv.first_addr = srv.addr
+            srv.addr = second           # the client talks to the second listener
     vio = []
 
     def V(clause, sig_, observed=None, expected=None):
@@ -225,8 +239,11 @@ def run_case(case):
                 V("pidfile-removed", "pid-file-left-behind", {"content": open(srv.pidfile).read()}, "removed")
             if bind == "unix" and os.path.exists(srv.sockpath):
                 V("socket-file-removed", "unix-socket-file-left-behind", None, "removed")
+            if getattr(srv, "second", None) and os.path.exists(srv.second):
+                V("socket-file-removed", "unix-socket-file-left-behind:second-listener", None, "removed")
+                os.unlink(srv.second)
         return Outcome(vio, in_flight, classes + ["exit:%s" % status, "elapsed:%d" % int(elapsed)],
-                       key="|".join("%s" % case.get(k) for k in ("kind", "phase", "app", "sig", "bind", "prelude")),
+                       key="|".join("%s" % case.get(k) for k in ("kind", "phase", "app", "sig", "bind", "prelude", "two_binds")),
                        sample={"case": case, "elapsed": round(elapsed, 2), "status": status, "response_head": data[:80]})
     finally:
         srv.cleanup()
